@@ -121,7 +121,7 @@ func main() {
 
 	nv, nt, nm := 900, 500, 1200
 	if *tier == "thorough" {
-		nv, nt, nm = 40000, 20000, 60000
+		nv, nt, nm = 20000, 10000, 30000
 	}
 	cwV := &lib.CaseWriter{Dir: *dir, Prefix: "cases_C44_encv", Header: "From CV Require Import C44.Cases.",
 		ElemType: "storable * list Z", CheckFn: "check_encode_value", PerFile: 400}
